@@ -71,8 +71,25 @@ def cvc5_check(smt2_text, produce_model=False):
             pass
 
 
+_CACHE = {}
+
+
+def _key(pc, goal=None):
+    return (tuple(sorted({p.get_id() for p in pc if not isinstance(p, bool)})), goal.get_id() if goal is not None else None)
+
+
 def feasible(pc, timeout_ms=2000):
     """Is the path condition satisfiable?  'unknown' counts as feasible (sound: never prunes a real path)."""
+    pc = [z3.BoolVal(p) if isinstance(p, bool) else p for p in pc]
+    k = ('f',) + _key(pc)
+    if k in _CACHE:
+        return _CACHE[k][0]
+    r = _feasible(pc, timeout_ms)
+    _CACHE[k] = (r, list(pc))       # keep the terms alive: z3 recycles AST ids of collected terms
+    return r
+
+
+def _feasible(pc, timeout_ms=2000):
     s = z3.Solver()
     s.set('timeout', timeout_ms)
     for a in pc:
@@ -86,6 +103,18 @@ def feasible(pc, timeout_ms=2000):
 
 def entails(pc, goal, timeout_ms=2000):
     """Does pc entail goal? (unknown -> False)"""
+    if isinstance(goal, bool):
+        return goal or not feasible(pc)
+    pc = [z3.BoolVal(p) if isinstance(p, bool) else p for p in pc]
+    k = ('e',) + _key(pc, goal)
+    if k in _CACHE:
+        return _CACHE[k][0]
+    r = _entails(pc, goal, timeout_ms)
+    _CACHE[k] = (r, list(pc), goal)
+    return r
+
+
+def _entails(pc, goal, timeout_ms=2000):
     s = z3.Solver()
     s.set('timeout', timeout_ms)
     for a in pc:
@@ -126,3 +155,35 @@ def z3_unescape(s):
     s = _re.sub(r'\\u\{([0-9a-fA-F]+)\}', rep, s)
     s = _re.sub(r'\\x([0-9a-fA-F]{2})', rep, s)
     return s
+
+
+class Ctx:
+    """several queries against the same path condition: the pc is asserted once, each query is a push/pop"""
+
+    def __init__(self, pc, timeout_ms=2000):
+        self.s = z3.Solver()
+        self.s.set('timeout', timeout_ms)
+        self.s.add(*[z3.BoolVal(p) if isinstance(p, bool) else p for p in pc])
+        self.n = len(pc)
+
+    def feasible_with(self, *extra):
+        t0 = time.time()
+        self.s.push()
+        self.s.add(*extra)
+        r = self.s.check()
+        self.s.pop()
+        STATS['feas']['n'] += 1
+        STATS['feas']['s'] += time.time() - t0
+        return r != z3.unsat
+
+    def entails(self, goal):
+        if isinstance(goal, bool):
+            return goal or not self.feasible_with()
+        t0 = time.time()
+        self.s.push()
+        self.s.add(z3.Not(goal))
+        r = self.s.check()
+        self.s.pop()
+        STATS['feas']['n'] += 1
+        STATS['feas']['s'] += time.time() - t0
+        return r == z3.unsat
